@@ -722,7 +722,13 @@ func (x *Exec) runLoop(f *frame, L *loopInfo) {
 		// iterations whose loop condition is decided concretely are not
 		// counted against the unwinding bound (constant-trip loops)
 		free := false
-		if br, ok := L.header.Instrs[len(L.header.Instrs)-1].(*ssa.If); ok {
+		exitTest := false
+		for _, sc := range L.header.Succs {
+			if !L.blocks[sc] {
+				exitTest = true
+			}
+		}
+		if br, ok := L.header.Instrs[len(L.header.Instrs)-1].(*ssa.If); ok && exitTest {
 			if c, ok := f.env[br.Cond].(*Term); ok && c.IsConst() {
 				free = true
 			} else if _, isC := br.Cond.(*ssa.Const); isC {
